@@ -2,7 +2,7 @@
 from .families import run_family
 from ..rules import structure as st
 from ..rules import callsites as cs
-from ..rules import origin
+from ..rules import origin, records
 
 
 def extras():
@@ -16,4 +16,5 @@ def run(rep, fb, tier):
 EXTRAS = [
     lambda rep, fb, tier: st.rule_axis(rep, fb, methods=("num", "offsets_and_flattened", "localindex"), floor=100),
     lambda rep, fb, tier: origin.rule_origin(rep, fb),
+    lambda rep, fb, tier: records.rule_regular_length(rep, fb),
 ]
